@@ -1,5 +1,6 @@
 import PilotaModel.TGen.Decode
 import PilotaModel.Lemmas.Tolerant
+import PilotaModel.Lemmas.TolerantC
 import PilotaModel.Lemmas.ProjMono
 import PilotaModel.Lemmas.OpsRun
 /-
@@ -16,8 +17,10 @@ import PilotaModel.Lemmas.OpsRun
   containers whose element wire types are the declared ones and union variants whose wire type is
   the declared one — outside it the code misreads (known findings D26, D29;
   `union_known_id_decoded_whatever_the_wire_type` states what it does instead) — and unknown
-  fields nested no deeper than the skipper's budget.  The compact protocol is covered by the
-  decision theorems below and by T1, not yet by the main theorem (`tolerant_compact` is open).
+  fields nested no deeper than the skipper's budget.  `tolerant_compact` / `decode_is_projection_compact`
+  are the same statements for the compact protocol, from every reader state without a deferred bool,
+  with that state restored (bool fields travel in the field header there: known, unknown and
+  typedef'd bool fields are separate cases of the proof, Lemmas/TolerantC.lean).
 -/
 namespace Pilota.Props.C08
 open Pilota Pilota.Thrift Pilota.TGen
@@ -34,6 +37,31 @@ theorem tolerant_binary (e : Endian) (dp : Option Nat) (d : Doc) (n : String) (w
   · exact (corr_all e dp d hed f).1 (.ref n) w rest (.ok v) hw hp
   · intro g' hg
     exact (corr_all e dp d hed g').1 (.ref n) w rest (.ok v) hw (projTy_mono d dp f g' hg _ w v hp)
+
+/-- **Tolerant reader, compact protocol.**  The same projection, from every reader state `cr` without a deferred
+bool; the reader state is restored. -/
+theorem tolerant_compact (d : Doc) (n : String) (w v : TVal) (cr : Compact.CR) (rest : Bytes) (f : Nat)
+    (hcr : cr.pendingBool = none) (hw : w.wt = true) (hp : projTy d dpC f (.ref n) w = some (.ok v)) :
+    ∃ g, decTy cmpRd d g (.ref n) (cr, Compact.enc w ++ rest) = .ok (v, (cr, rest)) ∧
+      ∀ g', g ≤ g' → decTy cmpRd d g' (.ref n) (cr, Compact.enc w ++ rest) = .ok (v, (cr, rest)) := by
+  refine ⟨f, ?_, ?_⟩
+  · exact (corrC_all d f).1 (.ref n) w cr rest (.ok v) hw hcr hp
+  · intro g' hg
+    exact (corrC_all d g').1 (.ref n) w cr rest (.ok v) hw hcr (projTy_mono d dpC f g' hg _ w v hp)
+
+/-- what the compact writer produces for `w` IS `Compact.enc w` (from any writer state without a deferred bool field) -/
+theorem compact_writer_is_enc (w : TVal) (hw : w.wt = true) (s : Compact.CW) (hs : s.pending = none) :
+    Compact.run s w.ops = .ok (s, Compact.enc w) := Compact.run_ops w hw s hs
+
+/-- the outcome of the emitted `decode` on compact input IS the projection's outcome, errors included. -/
+theorem decode_is_projection_compact (d : Doc) (n : String) (w : TVal) (cr : Compact.CR) (rest : Bytes) (o : Out TVal)
+    (hcr : cr.pendingBool = none) (hw : w.wt = true)
+    (hp : projTy d dpC (3 * (Compact.enc w ++ rest).length + 8) (.ref n) w = some o) :
+    decode cmpRd d n (cr, Compact.enc w ++ rest) = withRestC cr rest o := by
+  unfold decode
+  have : cmpRd.remaining (cr, Compact.enc w ++ rest) = (Compact.enc w ++ rest).length := rfl
+  rw [this]
+  exact (corrC_all d _).1 (.ref n) w cr rest o hw hcr hp
 
 /-- the same at the budget the emitted `decode` entry point really uses, for errors as well as values:
 the outcome of `decode` IS the projection's outcome. -/
